@@ -74,6 +74,7 @@ class IsoDepInitiator(object):
         self.delta_fwt = 49152 / 13.56E6
         self.n_retry_ack = min(int(1/self.fwt), 5)
         self.n_retry_nak = self.n_retry_ack
+        self.errno = None  # set by an unrecoverable error
 
     def _exchange(self, data, timeout):
         # Send a block and return the answer. A request for waiting time
@@ -85,6 +86,19 @@ class IsoDepInitiator(object):
         return data
 
     def exchange(self, command, timeout=None):
+        # An unrecoverable error leaves the block numbers of reader and
+        # card undefined, the next command could be answered with the
+        # response to the previous one or be executed twice. No more
+        # commands are exchanged until the card is activated again.
+        if command is not None and self.errno is not None:
+            raise Type4TagCommandError(self.errno)
+        try:
+            return self._exchange_command(command, timeout)
+        except Type4TagCommandError as error:
+            self.errno = error.errno
+            raise
+
+    def _exchange_command(self, command, timeout):
         if timeout is None:
             timeout = self.fwt + self.delta_fwt
 
